@@ -44,6 +44,7 @@ DOCX_FEATURES = {
     "table-cell-multi-para": "table cell with two paragraphs (twin: one paragraph)",
     "empty-section": "a heading directly followed by a heading of the same level, i.e. a section without body text (twin: one paragraph between them)",
     "empty-table": "a table whose cells are all empty between two filled tables (twin: its first cell is filled)",
+    "cell-blank-paragraph": "a table cell with three paragraphs, the middle one empty (twin: two paragraphs)",
     "nested-sdt": "block-level content controls nested in a group control, two and three levels deep, around paragraphs and a table (twin: the same blocks in single-level controls)",
 }
 PPTX_FEATURES = {
@@ -54,6 +55,7 @@ PPTX_FEATURES = {
     "multi-image-slides": "images on several slides (numbering must run 1..n) (twin: all images on one slide)",
     "line-break": "a:br between two runs (twin: separate paragraphs)",
     "empty-table": "a table whose cells are all empty between two filled tables (twin: its first cell is filled)",
+    "overlaid-shapes": "text boxes stacked on exactly the same offset, texts in reverse alphabetical order (twin: distinct offsets)",
 }
 XLSX_FEATURES = {
     "duration-cell": "cell with a duration number format (twin: plain number)",
@@ -62,6 +64,7 @@ XLSX_FEATURES = {
     "no-core-props": "no docProps/core.xml (twin: present)",
     "sheet-order-vs-file": "sheet order in workbook.xml differs from sheetN.xml numbering, images on 2nd (twin: same order)",
     "leading-empty-row": "data starts at row 2 (twin: row 1)",
+    "hidden-sheet": "a worksheet marked state=\"hidden\" in workbook.xml (twin: visible)",
     "empty-sheet": "a worksheet without any cell among other sheets (twin: a single cell)",
     "no-dimension": "worksheet without the optional <dimension> element and a first row narrower than the rows below (twin: <dimension> present)",
     "image-size-unknown": "picture in a format whose size cannot be sniffed (EMF) anchored with ext cx=cy=0 (twin: PNG with a real extent)",
@@ -102,7 +105,7 @@ def _core(meta: dict, rng=None) -> bytes:
 
 
 def _meta(tk: Tokens, exp: Expect, rng, keys=("title", "author", "subject", "keywords", "description")) -> dict:
-    payloads = ["", " é&<>", " 😀", " אב", " á", " „quoted“"]
+    payloads = ["", " é&<>", " 😀", " אב", " á", " „quoted“", " Generation Z", " A-Z", " v1.0", " 2024-01-02T03:04:05Z", " 100%", " (draft)", " +00:00"]
     meta = {}
     for k in keys:
         meta[k] = exp.ignore(tk.new("t")) + rng.choice(payloads)
@@ -192,6 +195,11 @@ def build_docx(seed: int, feature: str | None = None, twin: bool = False):
                 out.append(_wr(" ".join(words(cls, 1, 1)) + " ") + f'<w:r><w:footnoteReference w:id="{fid}"/></w:r>')
             else:
                 out.append(f'<w:sdt><w:sdtPr><w:alias w:val="cc"/></w:sdtPr><w:sdtContent>{_wr(" ".join(words("e", 1, 2)) + " ")}</w:sdtContent></w:sdt>')
+            if rng.random() < 0.12:
+                # a complex field: the instruction is not text, the field result is
+                code = exp.out(tk.new("r"))
+                out.append(f'<w:r><w:fldChar w:fldCharType="begin"/></w:r><w:r><w:instrText xml:space="preserve"> DOCPROPERTY {code} \\* MERGEFORMAT </w:instrText></w:r>'
+                           f'<w:r><w:fldChar w:fldCharType="separate"/></w:r>{_wr(" ".join(words(cls, 1, 1)) + " ")}<w:r><w:fldChar w:fldCharType="end"/></w:r>')
         return "".join(out)
 
     def para(cls="b", style=None, numbered=False):
@@ -362,6 +370,14 @@ def _docx_feature(feature, twin, rng, tk, exp, unit, words, para, table, image_p
         return xml
     if feature == "text-before-first-heading":
         return ""
+    if feature == "cell-blank-paragraph":
+        # a cell with three paragraphs of which the middle one is empty (twin: no empty paragraph)
+        t = [words("c", 1, 1)[0] for _ in range(4)]
+        mid = "" if twin else "<w:p/>"
+        xml = (f'<w:tbl><w:tblPr><w:tblW w:w="0" w:type="auto"/></w:tblPr><w:tblGrid><w:gridCol/><w:gridCol/></w:tblGrid><w:tr><w:tc><w:p>{_wr(t[0])}</w:p>{mid}<w:p>{_wr(t[1])}</w:p></w:tc>'
+               f'<w:tc><w:p>{_wr(t[2])}</w:p></w:tc></w:tr><w:tr><w:tc><w:p>{_wr(t[3])}</w:p></w:tc><w:tc><w:p/></w:tc></w:tr></w:tbl>')
+        exp.tables.append({"grid": [[{"lines": [t[0], t[1]] if twin else [t[0], "", t[1]]}, {"toks": [t[2]]}], [{"toks": [t[3]]}, {"empty": True}]]})
+        return xml
     if feature == "empty-table":
         out = []        # (built strictly in document order: tokens are recorded as they are drawn)
         for k, blank in enumerate((None, "all-but-first" if twin else "all", None)):
@@ -497,10 +513,8 @@ def build_pptx(seed: int, feature: str | None = None, twin: bool = False):
                 n_img = 1 if s < 3 else 0
         elif feature == "image-target-absolute":
             n_img = 1 if s == feature_slide else 0
-        elif feature is None and not empty and rng.random() < 0.35:
-            n_img = 1   # clean decks carry images on at most one slide (per-slide numbering restart is a listed finding)
-            if any(k.startswith("ppt/media/") for k in parts):
-                n_img = 0
+        elif feature is None and not empty and rng.random() < 0.45:
+            n_img = rng.choice([1, 1, 2])   # pictures on any slides, with picture-free slides in between (numbers run through the deck)
         for _ in range(n_img):
             img_no += 1
             im = _rand_image(rng, img_no)
@@ -522,6 +536,16 @@ def build_pptx(seed: int, feature: str | None = None, twin: bool = False):
                 t1, t2 = toks("b", 1, 1)[0], toks("b", 1, 1)[0]
                 second = _ar(t2) if twin else f'<a:fld id="{{B1}}" type="slidenum"><a:rPr lang="en-US"/><a:t>{t2}</a:t></a:fld>'
                 shapes.append(sp(_ap(_ar(t1 + " ") + second), ph="body"))
+            elif feature == "overlaid-shapes":
+                # several text boxes on exactly the same offset: source order (z-order) decides;
+                # the texts start with words whose alphabetical order is the reverse of the source order
+                y0 = y
+                for word in ("zulu", "mike", "alfa"):
+                    if not twin:
+                        y = y0
+                    shapes.append(sp(_ap(_ar(word + " " + " ".join(toks("x", 1, 2)))), ph=None, name="TextBox"))
+                # (shapes of different kinds on one offset are not claimed: the reader orders by position and, within a
+                #  position, collects text shapes before graphic frames - a reading-order choice the property leaves open)
             elif feature == "empty-table":
                 add_table()
                 add_table(all_empty=not twin, first_filled_only=twin)
@@ -670,6 +694,11 @@ def build_xlsx(seed: int, feature: str | None = None, twin: bool = False):
                     v = rng.random() < 0.5
                     cells.append(f'<c r="{ref}" t="b"><v>{int(v)}</v></c>')
                     grow.append({"v": v})
+                elif k < 0.86:
+                    # ISO 8601 cell representation (t="d"), as strict-OOXML producers and openpyxl's iso_dates write it
+                    iso = rng.choice([f"20{rng.randint(10, 29)}-02-{rng.randint(10, 28)}", f"20{rng.randint(10, 29)}-11-{rng.randint(10, 30)}T{rng.randint(10, 23)}:{rng.randint(10, 59)}:00"])
+                    cells.append(f'<c r="{ref}" t="d" s="{1 if len(iso) == 10 else 2}"><v>{iso}</v></c>')
+                    grow.append({"v": iso})
                 elif k < 0.9:
                     serial = rng.randint(40000, 46000)   # whole-day dates, 1900 system
                     import datetime as _dt
@@ -730,15 +759,25 @@ def build_xlsx(seed: int, feature: str | None = None, twin: bool = False):
         parts[f"xl/worksheets/sheet{fno}.xml"] = (f'<?xml version="1.0" encoding="UTF-8" standalone="yes"?><worksheet xmlns="{S}" xmlns:r="{R_NS}">'
                                                   f'{"" if (risky == "no-dimension" and s == feature_sheet) else dim_xml}<sheetData>{"".join(xml_rows)}</sheetData>{drawing_xml}</worksheet>').encode()
         wb_rels.append((f"rIdSh{s + 1}", REL_T + "worksheet", f"worksheets/sheet{fno}.xml", None))
-        sheets_xml.append(f'<sheet name="{name_tok}" sheetId="{s + 1}" r:id="rIdSh{s + 1}"/>')
+        state = ' state="hidden"' if (risky == "hidden-sheet" and s == feature_sheet) else ""
+        sheets_xml.append(f'<sheet name="{name_tok}" sheetId="{s + 1}"{state} r:id="rIdSh{s + 1}"/>')
         exp.tables.append({"grid": grid, "unit": s + 1})
     exp.n_units = n_sheets
     wb_rels.append(("rIdSS", REL_T + "sharedStrings", "sharedStrings.xml", None))
     wb_rels.append(("rIdSt", REL_T + "styles", "styles.xml", None))
     parts["xl/workbook.xml"] = f'<?xml version="1.0" encoding="UTF-8" standalone="yes"?><workbook xmlns="{S}" xmlns:r="{R_NS}"><sheets>{"".join(sheets_xml)}</sheets></workbook>'.encode()
     parts["xl/_rels/workbook.xml.rels"] = _rels(wb_rels)
+    ss_rng = random.Random(f"sst:{seed}")
+
+    def si(t):
+        # a shared string is plain, or rich text split into runs (phonetic runs and properties are not text)
+        k = ss_rng.random()
+        if k < 0.75:
+            return f"<si><t>{t}</t></si>"
+        ph = f'<rPh sb="0" eb="1"><t>{exp.out(tk.new("r"))}</t></rPh><phoneticPr fontId="1"/>' if k > 0.92 else ""
+        return f'<si><r><rPr><b/></rPr><t>{t}</t></r><r><t xml:space="preserve"> !</t></r>{ph}</si>'
     parts["xl/sharedStrings.xml"] = (f'<?xml version="1.0" encoding="UTF-8" standalone="yes"?><sst xmlns="{S}" count="{len(shared)}" uniqueCount="{len(shared)}">'
-                                     + "".join(f"<si><t>{t}</t></si>" for t in shared) + "</sst>").encode()
+                                     + "".join(si(t) for t in shared) + "</sst>").encode()
     parts["xl/styles.xml"] = styles.encode()
     root_rels = [("rId1", REL_T + "officeDocument", "xl/workbook.xml", None)]
     overrides = {"/xl/workbook.xml": "application/vnd.openxmlformats-officedocument.spreadsheetml.sheet.main+xml",
